@@ -22,6 +22,8 @@ class _Replay(dict):
             return self[key]
         if key.startswith("set_store#"):
             return "h_lru.cache_option"
+        if "#signals:" in key and key.startswith(("LRUCacheStore.store_blob#", "LRUCacheStore.sync_paths#")):
+            return "h_lru.faulty_inner"
         return default
 
 
